@@ -223,6 +223,18 @@ class IRSpec:
             return cont(st, ('super', st.env['self'][1], fr.fi.cls))
         if fname == 'OrderedDict' and not e.args:
             return cont(st, ('odict_new',))
+        if fname == 'id':
+            return se.ev(st, e.args[0], lambda s, v: cont(s, ('id', v[1])) if v[0] == 'ref' else se._unsup('id of %s' % v[0]))
+        if fname == 'set' and e.args and isinstance(e.args[0], ast.GeneratorExp):
+            g = e.args[0]
+            gen = g.generators[0]
+            if (len(g.generators) == 1 and not gen.ifs and isinstance(g.elt, ast.Call) and ast.unparse(g.elt.func) == 'id'
+                    and isinstance(g.elt.args[0], ast.Name) and isinstance(gen.target, ast.Name) and g.elt.args[0].id == gen.target.id):
+                def k(s, v):
+                    if v[0] != 'list': raise Unsupported('set(id(x) for x in %s)' % v[0])
+                    return cont(s, ('idset', v[1]))
+                return se.ev(st, gen.iter, k)
+            raise Unsupported('set(<generator>) shape')
         if fname == 'set':
             if not e.args: return cont(st, ('set', K(c.Ref, False), None))
             return se.ev(st, e.args[0], lambda s, v: self.to_set(se, s, v, cont))
